@@ -15,8 +15,16 @@
 //!          `Wa<int>` … `We<int>`            update_watermark(stream, w)
 //!          `U<i>`  unregister_join("j<i>")   `G<i>`  register_join("j<i>", fresh node of join i, handler -> sink i)
 //!                  (per join strictly alternating U, G, starting registered; anything else is `bad-case`)
+//!          `K`     clear(): every join is unregistered at once (allowed at any time; afterwards every join may be
+//!                  registered again with `G<i>`, in any order)
 //!    (in this mode an event carries its key under BOTH key fields: a stream may be a left and a right input)
 //! obs  := `nocalls` | call;call;…   call := batch/batch/…  one batch per registered join (what ITS handler received)
+//! all modes: op `S` = statistics probe (`get_stats` on the node / `get_join_stats` + `get_all_stats` on the manager):
+//!    adds NO call to the observation (the getters are `&self` observers; the Lean driver drops the token) unless the
+//!    twins disagree with each other or with the set of registered joins (`stats-inconsistent`)
+//! key numbers: `<key>` n < 100 is the string `key<n>`; from 100 on the n-th entry of `UNUSUAL_KEYS` (100 = the EMPTY
+//!    string, blanks, look-alikes of key0, numeric look-alikes, stream names, separators, case / normalisation pairs),
+//!    200..207 very long keys — pairwise distinct strings, so equal numbers <=> equal join keys (`key_string`)
 use rre_harness::*;
 use rust_rule_engine::rete::stream_join_node::{JoinStrategy, JoinType, JoinedEvent, StreamJoinNode};
 use rust_rule_engine::streaming::event::StreamEvent;
@@ -41,6 +49,10 @@ enum Op {
     Ev(char, Ev),     // 'L' | 'R' | 'X'
     Wm(char, i64),    // 'l' | 'r' | 'x'
     Ctl(char, usize), // 'U' unregister join i | 'G' register join i again (multi-join manager mode only)
+    /// `S`: the statistics getters (`get_stats` / `get_join_stats` + `get_all_stats`) are called; they are `&self`
+    /// observers that must not disturb the join: the probe adds NO call to the observation (the model and the oracle
+    /// drop the token), unless the twins disagree with each other (`stats-inconsistent`)
+    Stats,
 }
 
 fn show_op(op: &Op) -> String {
@@ -55,6 +67,8 @@ fn show_op(op: &Op) -> String {
             e.decoy.map(|d| format!(":{}", d)).unwrap_or_default()
         ),
         Op::Wm(s, w) => format!("W{}{}", s, w),
+        Op::Stats => "S".to_string(),
+        Op::Ctl('K', _) => "K".to_string(),
         Op::Ctl(c, i) => format!("{}{}", c, i),
     }
 }
@@ -113,6 +127,7 @@ fn parse_jcase(case: &str) -> Option<(Vec<JoinSpec>, Vec<Op>)> {
             Op::Ev(c, e) if ('A'..='E').contains(c) && e.decoy.is_none() => {}
             Op::Wm(c, _) if ('a'..='e').contains(c) => {}
             Op::Ctl(_, i) if *i < joins.len() => {}
+            Op::Stats => {}
             _ => return None,
         }
     }
@@ -126,6 +141,11 @@ fn parse_jcase(case: &str) -> Option<(Vec<JoinSpec>, Vec<Op>)> {
 fn ctl_valid(njoins: usize, ops: &[Op]) -> bool {
     let mut reg = vec![true; njoins];
     for op in ops {
+        if let Op::Ctl('K', _) = op {
+            // clear(): every join is gone; any of them may be registered again afterwards
+            reg.iter_mut().for_each(|r| *r = false);
+            continue;
+        }
         if let Op::Ctl(c, i) = op {
             if *i >= njoins || reg[*i] != (*c == 'U') {
                 return false;
@@ -156,6 +176,8 @@ fn parse_op(s: &str) -> Option<Op> {
             ))
         }
         'U' | 'G' => Some(Op::Ctl(c, s[1..].parse().ok()?)),
+        'K' if s == "K" => Some(Op::Ctl('K', 0)),
+        'S' if s == "S" => Some(Op::Stats),
         'W' => {
             let st = s[1..].chars().next()?;
             if !"lrxabcde".contains(st) {
@@ -186,6 +208,7 @@ fn parse_case(case: &str) -> Option<(char, u64, u64, Vec<Op>)> {
         match op {
             Op::Ev(c, _) if "LRX".contains(*c) => {}
             Op::Wm(c, _) if "lrx".contains(*c) => {}
+            Op::Stats => {}
             _ => return None,
         }
     }
@@ -209,6 +232,83 @@ fn stream_name(c: char) -> &'static str {
 const LKEY: &str = "k";
 const RKEY: &str = "rk";
 
+/// UNUSUAL BUT LEGAL JOIN KEYS. Key numbers below 100 are the plain keys `key<n>`; key number 100 + i is the i-th
+/// string of this table. The table is pairwise distinct AS RUST STRINGS (checked once per process, `key_string`), so
+/// "equal key numbers" (what the model and the oracle compare) is exactly "equal extracted join keys" (what the node
+/// must compare): two different entries must NEVER join however similar they look, two events with the same entry
+/// must join like any other key. Consecutive entries form confusable CLUSTERS (`KEY_CLUSTERS`).
+const UNUSUAL_KEYS: [&str; 64] = [
+    // 100.. empty / blank keys
+    "", " ", "  ", "\t", "\n", "\u{a0}", "\u{200b}", "\0",
+    // 108.. the plain key `key0` with blanks, other case, padding, suffixes (trim / case folding / prefix match)
+    "key0 ", " key0", "KEY0", "Key0", "key00", "key", "key0\0", "key0.0",
+    // 116.. numeric-looking keys: equal as numbers, different as strings
+    "1", "01", "1.0", "+1", "1e0", " 1", "\u{661}", "\u{ff11}",
+    // 124.. zero / sign / non-string look-alikes (the harness' non-string key value is Integer(7))
+    "0", "-0", "0.0", "7", "007", "7.0", "-", "00",
+    // 132.. the stream names, the key field names and words a missing key could be printed as
+    "left", "right", "other", "orders", "k", "rk", "None", "null",
+    // 140.. separators a composite key / an event id (`<id>_<ts>`) could be built from
+    "_", "0_0", "1_1", ":", ",", ";", "/", "|",
+    // 148.. case pairs whose folding is not ASCII, and Unicode normalisation forms of the same text
+    "\u{e9}", "e\u{301}", "e", "\u{c9}", "\u{212a}", "K", "\u{df}", "ss",
+    // 156.. more case / normalisation / ligature look-alikes
+    "\u{130}", "i", "\u{131}", "I", "\u{fb01}", "fi", "\u{3a9}", "\u{2126}",
+];
+
+/// confusable clusters of key numbers (a family picks one and draws its keys from it)
+const KEY_CLUSTERS: [&[u64]; 14] = [
+    &[100, 101, 102, 0],          // "", " ", "  ", key0
+    &[100, 103, 104, 107],        // "", tab, newline, NUL
+    &[100, 105, 106, 130],        // "", NBSP, ZWSP, "-"
+    &[0, 108, 109, 110],          // key0, "key0 ", " key0", "KEY0"
+    &[0, 111, 112, 113, 114, 115],// key0, Key0, key00, key, key0\0, key0.0
+    &[116, 117, 118, 119],        // 1, 01, 1.0, +1
+    &[116, 120, 121, 122, 123],   // 1, 1e0, " 1", arabic-indic 1, fullwidth 1
+    &[124, 125, 126, 131, 100],   // 0, -0, 0.0, 00, ""
+    &[127, 128, 129, 100],        // 7, 007, 7.0 (next to key-less events whose field holds Integer(7)), ""
+    &[132, 133, 134, 135, 136, 137], // left, right, other, orders, k, rk
+    &[138, 139, 100, 130],        // None, null, "", "-"
+    &[140, 141, 142, 143, 144, 145, 146, 147], // separators
+    &[148, 149, 150, 151, 152, 153, 154, 155], // é NFC / NFD / e / É, Kelvin sign / K, ß / ss
+    &[156, 157, 158, 159, 160, 161, 162, 163], // İ i ı I, ﬁ / fi, Ω / ohm sign
+];
+
+/// the string an event carries for key number `k`: `key<k>` below 100, the table above from 100, and from 200 on VERY
+/// LONG keys (4 KiB .. 64 KiB) that differ from each other only in their LAST character, in their FIRST character, or
+/// by being a proper prefix of one another
+fn key_string(k: u64) -> String {
+    use std::sync::Once;
+    static CHECK: Once = Once::new();
+    CHECK.call_once(|| {
+        let mut all: Vec<String> = (0..100).map(|i| format!("key{}", i)).collect();
+        all.extend(UNUSUAL_KEYS.iter().map(|s| s.to_string()));
+        let n = all.len();
+        all.sort();
+        all.dedup();
+        assert_eq!(all.len(), n, "UNUSUAL_KEYS must be pairwise distinct and different from key<n>");
+    });
+    if k < 100 {
+        format!("key{}", k)
+    } else if ((k - 100) as usize) < UNUSUAL_KEYS.len() {
+        UNUSUAL_KEYS[(k - 100) as usize].to_string()
+    } else if (200..208).contains(&k) {
+        let body = "x".repeat(4096);
+        match k {
+            200 => format!("{}a", body),
+            201 => format!("{}b", body),
+            202 => body,                     // proper prefix of 200 / 201
+            203 => format!("a{}", body),
+            204 => format!("b{}", body),
+            205 => "y".repeat(65536),
+            206 => format!("{}z", "y".repeat(65535)),
+            _ => format!("{}\u{e9}", &body[..4095]),
+        }
+    } else {
+        format!("key{}", k)
+    }
+}
+
 fn mk_event(side: char, e: &Ev) -> StreamEvent {
     let mut data = HashMap::new();
     // the event's own key field(s): a left event is keyed under LKEY, a right event under RKEY; an event of the
@@ -221,7 +321,7 @@ fn mk_event(side: char, e: &Ev) -> StreamEvent {
     for f in own {
         match e.key {
             Some(k) => {
-                data.insert(f.to_string(), Value::String(format!("key{}", k)));
+                data.insert(f.to_string(), Value::String(key_string(k)));
             }
             // key-less: the field is absent, or present with a non-string value (extractor -> None)
             None => {
@@ -233,7 +333,7 @@ fn mk_event(side: char, e: &Ev) -> StreamEvent {
     }
     // decoy: a perfectly good key value under the field only the OTHER side's extractor reads
     if let (Some(f), Some(d)) = (other, e.decoy) {
-        data.insert(f.to_string(), Value::String(format!("key{}", d)));
+        data.insert(f.to_string(), Value::String(key_string(d)));
     }
     data.insert("v".to_string(), Value::Integer(e.v));
     let mut ev = StreamEvent::with_timestamp("e", data, stream_name(side), e.ts);
@@ -292,7 +392,8 @@ fn show_call(js: &[JoinedEvent]) -> String {
 
 /// several joins on one manager: every join has its own sink; after every manager call each sink is drained
 fn exec_multi(joins: &[JoinSpec], ops: &[Op]) -> String {
-    let mut mgr = StreamJoinManager::new();
+    // `Default` is the twin of `new()` (the single-join mode `M` uses `new()`)
+    let mut mgr = StreamJoinManager::default();
     let mut sinks: Vec<Arc<Mutex<Vec<JoinedEvent>>>> = Vec::new();
     for (i, j) in joins.iter().enumerate() {
         let sink: Arc<Mutex<Vec<JoinedEvent>>> = Arc::new(Mutex::new(Vec::new()));
@@ -305,14 +406,37 @@ fn exec_multi(joins: &[JoinSpec], ops: &[Op]) -> String {
         sinks.push(sink);
     }
     let mut calls: Vec<String> = Vec::new();
+    let mut reg = vec![true; joins.len()];
     for op in ops {
         match op {
+            Op::Stats => {
+                // get_join_stats(id) is Some exactly for the registered joins and agrees with get_all_stats()[id]
+                let all = mgr.get_all_stats();
+                let mut ok = all.len() == reg.iter().filter(|r| **r).count() && mgr.get_join_stats("nosuch").is_none();
+                for (i, r) in reg.iter().enumerate() {
+                    let one = mgr.get_join_stats(&format!("j{}", i));
+                    ok &= one.is_some() == *r
+                        && format!("{:?}", one) == format!("{:?}", all.get(&format!("j{}", i)).cloned());
+                }
+                if !ok {
+                    calls.push("stats-inconsistent".into());
+                }
+                continue;
+            }
             Op::Ev(s, e) => mgr.process_event(mk_event(*s, e)),
             Op::Wm(s, w) => mgr.update_watermark(stream_name(*s), *w),
-            Op::Ctl('U', i) => mgr.unregister_join(&format!("j{}", i)),
+            Op::Ctl('U', i) => {
+                reg[*i] = false;
+                mgr.unregister_join(&format!("j{}", i))
+            }
+            Op::Ctl('K', _) => {
+                reg.iter_mut().for_each(|r| *r = false);
+                mgr.clear()
+            }
             Op::Ctl(_, i) => {
                 // the same join again: same id, same streams and parameters, a fresh node, results into the same sink
                 let j = &joins[*i];
+                reg[*i] = true;
                 let s2 = sinks[*i].clone();
                 mgr.register_join(
                     format!("j{}", i),
@@ -349,6 +473,13 @@ fn exec(case: &str) -> String {
                 Op::Ev(_, _) => vec![], // an event of an unrelated stream is never handed to the node
                 Op::Wm(_, w) => node.update_watermark(*w),
                 Op::Ctl(_, _) => return "bad-case".into(),
+                Op::Stats => {
+                    let st = node.get_stats();
+                    if st.left_partitions > st.left_buffer_size || st.right_partitions > st.right_buffer_size {
+                        calls.push("stats-inconsistent".into());
+                    }
+                    continue;
+                }
             };
             calls.push(show_call(&out));
         }
@@ -366,6 +497,18 @@ fn exec(case: &str) -> String {
                 Op::Ev(s, e) => mgr.process_event(mk_event(*s, e)),
                 Op::Wm(s, w) => mgr.update_watermark(stream_name(*s), *w),
                 Op::Ctl(_, _) => return "bad-case".into(),
+                Op::Stats => {
+                    let one = mgr.get_join_stats("j");
+                    let all = mgr.get_all_stats();
+                    if one.is_none()
+                        || all.len() != 1
+                        || format!("{:?}", one) != format!("{:?}", all.get("j").cloned())
+                        || mgr.get_join_stats("left").is_some()
+                    {
+                        calls.push("stats-inconsistent".into());
+                    }
+                    continue;
+                }
             }
             let out: Vec<JoinedEvent> = sink.lock().unwrap().drain(..).collect();
             calls.push(show_call(&out));
@@ -471,6 +614,7 @@ fn shifted(ops: &[Op], base: u64) -> Vec<Op> {
             Op::Ev(s, e) => Op::Ev(*s, Ev { ts: e.ts + base, ..e.clone() }),
             Op::Wm(s, w) => Op::Wm(*s, *w + base as i64),
             Op::Ctl(c, i) => Op::Ctl(*c, *i),
+            Op::Stats => Op::Stats,
         })
         .collect()
 }
@@ -849,6 +993,234 @@ fn ctl_cases(rng: &mut Rng, out: &mut Vec<String>, thorough: bool) {
     }
 }
 
+/// very long keys (see `key_string`): same 4 KiB body + different last character + the bare body (a proper prefix);
+/// different first character; 64 KiB keys differing in the last character; ASCII vs non-ASCII last character
+const LONG_KEY_CLUSTERS: [&[u64]; 4] = [&[200, 201, 202], &[203, 204, 202], &[205, 206], &[200, 207, 201]];
+
+/// family "unusual but legal key values": key number i of a history becomes the i-th key of a confusable cluster
+/// (decoys too); which keys are equal does not change, so neither does the reference join
+fn remap_keys(ops: &[Op], cluster: &[u64]) -> Vec<Op> {
+    let m = |k: u64| cluster[(k as usize) % cluster.len()];
+    ops.iter()
+        .map(|op| match op {
+            Op::Ev(s, e) => Op::Ev(*s, Ev { key: e.key.map(m), decoy: e.decoy.map(m), ..e.clone() }),
+            o => o.clone(),
+        })
+        .collect()
+}
+
+/// a cluster in a random rotation / order, so that every member gets to be key number 0, 1, …
+fn pick_cluster(rng: &mut Rng) -> Vec<u64> {
+    let mut c: Vec<u64> = KEY_CLUSTERS[rng.below(KEY_CLUSTERS.len() as u64) as usize].to_vec();
+    // the empty key, when the cluster has it, stays in front half of the time (it is the most likely to be special-cased)
+    if !(c[0] == 100 && rng.chance(1, 2)) {
+        rng.shuffle(&mut c);
+    }
+    c
+}
+
+fn unusual_key_cases(rng: &mut Rng, n: usize, tier: &str, out: &mut Vec<String>) {
+    let thorough = tier == "thorough";
+    // the thorough tier has ~8x the configurations and larger ones (4+4: 70 merges); a third of the rate keeps it in budget
+    let n = if thorough { n / 3 } else { n };
+    let maxn: u64 = if thorough { 4 } else { 3 };
+    // (7a) exhaustive tiny domain around the EMPTY key: every 2+2 configuration over ts in {0,2} x key in {"", key0, none},
+    // every merge, node and manager, without watermarks and with a tracking watermark
+    let choices: Vec<(u64, Option<u64>)> =
+        vec![(0, Some(100)), (0, Some(0)), (0, None), (2, Some(100)), (2, Some(0)), (2, None)];
+    let nc = choices.len();
+    for code in 0..nc * nc * nc * nc {
+        let pick = |j: usize| choices[(code / nc.pow(j as u32)) % nc];
+        // configurations without any empty key are family (1) again
+        if (0..4).all(|j| pick(j).1 != Some(100)) {
+            continue;
+        }
+        let ev = |id: u64, c: (u64, Option<u64>)| Ev { id, ts: c.0, key: c.1, v: 0, decoy: None };
+        let ls = vec![ev(0, pick(0)), ev(1, pick(1))];
+        let rs = vec![ev(0, pick(2)), ev(1, pick(3))];
+        for (mi, m) in merges(&ls, &rs).iter().enumerate() {
+            let mode = if (code + mi) % 2 == 0 { 'M' } else { 'D' };
+            if (code + mi) % 3 == 0 {
+                out.push(show_case(mode, 1500, 0, &with_tracking_wm(m, 0, rng)));
+            } else {
+                out.push(show_case(mode, 1000, 0, m));
+            }
+        }
+    }
+    // (7b) random configurations as in (2), keys drawn from ONE confusable cluster (2..4 of its members, sometimes next
+    // to key-less events and decoys), ALL merges, the three watermark variants, node and manager
+    for _ in 0..n / 3 {
+        let cluster = pick_cluster(rng);
+        let nl = rng.range(1, maxn).max(rng.range(0, maxn)) as usize;
+        let nr = rng.range(1, maxn).max(rng.range(0, maxn)) as usize;
+        let nkeys = rng.range(1, (cluster.len() as u64).min(4));
+        let dom = *rng.pick(&[3u64, 5, 8]);
+        let keyless = rng.chance(1, 2);
+        let dur = *rng.pick(&[0u64, 999, 1000, 1999, 2000, 3000, 5000, 5000]);
+        let cond = if rng.chance(2, 3) { 0 } else { rng.range(1, 3) };
+        let ls = rand_events(rng, nl, nkeys, dom, keyless);
+        let rs = rand_events(rng, nr, nkeys, dom, keyless);
+        let (ls, rs) =
+            if rng.chance(1, 3) { (with_decoys(ls, nkeys, rng), with_decoys(rs, nkeys, rng)) } else { (ls, rs) };
+        let slack = rng.below(4) as i64;
+        for m in merges(&ls, &rs) {
+            let m = remap_keys(&m, &cluster);
+            let mode = if rng.chance(1, 2) { 'D' } else { 'M' };
+            out.push(show_case(mode, dur, cond, &m));
+            out.push(show_case(mode, dur, cond, &with_tracking_wm(&m, slack, rng)));
+            let b = with_random_wm(&m, dom, rng);
+            let b = if mode == 'M' { with_unrouted(&b, rng) } else { b };
+            out.push(show_case(mode, dur, cond, &b));
+        }
+    }
+    // (7c) long histories (sliding per-key queues, evictions) over a cluster
+    for i in 0..n / 12 {
+        let cluster = pick_cluster(rng);
+        let (nl, nr) = (rng.range(5, 12) as usize, rng.range(5, 12) as usize);
+        let (dur, cond, ops) = long_history(rng, nl, nr);
+        out.push(show_case(if i % 2 == 0 { 'D' } else { 'M' }, dur, cond, &remap_keys(&ops, &cluster)));
+    }
+    // (7d) VERY LONG keys (4 KiB .. 64 KiB, differing in the last / first character or proper prefixes of each other)
+    for _ in 0..n / 40 {
+        let cluster = LONG_KEY_CLUSTERS[rng.below(LONG_KEY_CLUSTERS.len() as u64) as usize];
+        let nl = rng.range(1, 2) as usize;
+        let nr = rng.range(1, 2) as usize;
+        let nkeys = cluster.len() as u64;
+        let ls = rand_events(rng, nl, nkeys, 3, false);
+        let rs = rand_events(rng, nr, nkeys, 3, false);
+        for m in merges(&ls, &rs) {
+            let m = remap_keys(&m, cluster);
+            let mode = if rng.chance(1, 2) { 'D' } else { 'M' };
+            out.push(show_case(mode, 5000, 0, &m));
+            out.push(show_case(mode, 1000, 0, &with_tracking_wm(&m, 1, rng)));
+        }
+    }
+    // (7e) the multi-join and the unregister / register-again families over a cluster
+    for i in 0..n / 24 {
+        let cluster = pick_cluster(rng);
+        let mut tmp = Vec::new();
+        if i % 2 == 0 {
+            multi_join_cases(rng, &mut tmp, false);
+            tmp.truncate(60);
+        } else {
+            ctl_cases(rng, &mut tmp, false);
+        }
+        for c in tmp {
+            if let Some((joins, ops)) = parse_jcase(&c) {
+                out.push(show_jcase(&joins, &remap_keys(&ops, &cluster)));
+            }
+        }
+    }
+}
+
+/// family "`clear()` and reuse": the manager is cleared (before the first event, in the middle of a run, twice in a row,
+/// after some join was already unregistered, at the very end) and some or all joins are registered again under their
+/// ids — at once or one by one with traffic in between, in registration order, reversed or shuffled. A cleared manager
+/// must route nothing (no stale `stream_to_joins` entry: a join registered again would otherwise receive every event
+/// twice), every join registered again starts empty and each of its lives is checked against its own reference join.
+fn clear_cases(rng: &mut Rng, out: &mut Vec<String>, thorough: bool) {
+    let joins = pick_joins(rng);
+    let nj = joins.len();
+    let mut streams: Vec<char> = Vec::new();
+    for j in &joins {
+        for c in [j.l, j.r] {
+            if !streams.contains(&c) {
+                streams.push(c);
+            }
+        }
+    }
+    streams.sort();
+    let maxper: u64 = if thorough { 4 } else { 3 };
+    let nkeys = rng.range(1, 2);
+    let dom = *rng.pick(&[3u64, 5, 8]);
+    let keyless = rng.chance(1, 4);
+    let seqs: Vec<Vec<Op>> = streams
+        .iter()
+        .map(|c| {
+            let n = rng.range(1, maxper).max(rng.range(0, maxper)) as usize;
+            rand_events(rng, n, nkeys, dom, keyless).into_iter().map(|e| Op::Ev(c.to_ascii_uppercase(), e)).collect()
+        })
+        .collect();
+    let slack = rng.below(4) as i64;
+    let k = Op::Ctl('K', 0);
+    for m in merges_k(&seqs, if thorough { 18 } else { 6 }, rng) {
+        let n = m.len();
+        let splice = |base: &[Op], at: usize, ins: Vec<Op>| -> Vec<Op> {
+            let mut v = base[..at].to_vec();
+            v.extend(ins);
+            v.extend_from_slice(&base[at..]);
+            v
+        };
+        let mut order: Vec<usize> = (0..nj).collect();
+        match rng.below(3) {
+            0 => {}
+            1 => order.reverse(),
+            _ => rng.shuffle(&mut order),
+        }
+        let all_back: Vec<Op> = order.iter().map(|i| Op::Ctl('G', *i)).collect();
+        let mut variants: Vec<Vec<Op>> = Vec::new();
+        // (a) clear + everything back before the first event (sometimes cleared twice)
+        let mut pre = vec![k.clone()];
+        if rng.chance(1, 3) {
+            pre.push(k.clone());
+        }
+        pre.extend(all_back.clone());
+        let a = splice(&m, 0, pre);
+        variants.push(a.clone());
+        // (b) clear + everything back, back to back in the middle of the run
+        let p = rng.below(n as u64 + 1) as usize;
+        let mut mid = vec![k.clone()];
+        mid.extend(all_back.clone());
+        variants.push(splice(&m, p, mid));
+        // (c) cleared for a while: traffic in between, then the joins come back one by one with traffic in between;
+        // some may never come back
+        let mut c: Vec<Op> = m[..p].to_vec();
+        c.push(k.clone());
+        let mut back = order.clone();
+        if nj > 1 && rng.chance(1, 3) {
+            back.pop();
+        }
+        let mut rest: Vec<Op> = m[p..].to_vec();
+        for i in back {
+            let take = rng.below(rest.len() as u64 + 1) as usize;
+            c.extend(rest.drain(..take));
+            c.push(Op::Ctl('G', i));
+        }
+        c.extend(rest);
+        variants.push(c);
+        // (d) one join unregistered first, then the clear, then everything back (and once more a clear at the end)
+        let i = rng.below(nj as u64) as usize;
+        let q = p + rng.below((n - p) as u64 + 1) as usize;
+        let mut d = splice(&m, q, {
+            let mut v = vec![k.clone()];
+            v.extend(all_back.clone());
+            v
+        });
+        d = splice(&d, p, vec![Op::Ctl('U', i)]);
+        if rng.chance(1, 2) {
+            d.push(k.clone());
+        }
+        variants.push(d);
+        // (e) cleared for good in the middle
+        variants.push(splice(&m, p, vec![k.clone()]));
+        // (f) (b) with a tracking watermark on a random consumed stream after every arrival
+        let mut e = Vec::new();
+        let mut mx: i64 = 0;
+        for op in &variants[1].clone() {
+            e.push(op.clone());
+            if let Some(t) = ts_of(op) {
+                mx = mx.max(t as i64);
+                e.push(Op::Wm(*rng.pick(&streams), mx - slack));
+            }
+        }
+        variants.push(e);
+        for v in variants {
+            debug_assert!(ctl_valid(nj, &v));
+            out.push(show_jcase(&joins, &v));
+        }
+    }
+}
+
 fn gen(rng: &mut Rng, n: usize, tier: &str) -> Vec<String> {
     let mut out = Vec::new();
     let maxn: u64 = if tier == "thorough" { 4 } else { 3 };
@@ -972,6 +1344,40 @@ fn gen(rng: &mut Rng, n: usize, tier: &str) -> Vec<String> {
     for _ in 0..n / 6 {
         ctl_cases(rng, &mut out, thorough);
     }
+
+    // (7) unusual but legal join key values (empty, blank, confusable, numeric-looking, stream names, separators,
+    // case / Unicode-normalisation pairs, very long)
+    unusual_key_cases(rng, n, tier, &mut out);
+
+    // (8) clear() on a live manager followed by normal use
+    for _ in 0..(if thorough { n / 18 } else { n / 6 }) {
+        clear_cases(rng, &mut out, thorough);
+    }
+
+    // (9) every fifth (thorough: fifteenth) case of ALL families above once more with statistics probes `S` (get_stats on the node,
+    // get_join_stats + get_all_stats on the manager) sprinkled between the calls: they must not disturb the join
+    let total = out.len();
+    for idx in (0..total).step_by(if thorough { 15 } else { 5 }) {
+        let c = out[idx].clone();
+        let probe = |ops: &[Op], rng: &mut Rng| -> Vec<Op> {
+            let mut v = Vec::new();
+            for op in ops {
+                if rng.chance(1, 3) {
+                    v.push(Op::Stats);
+                }
+                v.push(op.clone());
+            }
+            v.push(Op::Stats);
+            v
+        };
+        if c.starts_with("J ") {
+            if let Some((joins, ops)) = parse_jcase(&c) {
+                out.push(show_jcase(&joins, &probe(&ops, rng)));
+            }
+        } else if let Some((mode, dur, cond, ops)) = parse_case(&c) {
+            out.push(show_case(mode, dur, cond, &probe(&ops, rng)));
+        }
+    }
     out
 }
 
@@ -999,6 +1405,7 @@ fn shrink_values(ops: &[Op]) -> Vec<Vec<Op>> {
                         Op::Ev(s, e) => Op::Ev(*s, Ev { ts: e.ts - sub, ..e.clone() }),
                         Op::Wm(s, w) => Op::Wm(*s, *w - sub as i64),
                         Op::Ctl(c, i) => Op::Ctl(*c, *i),
+                        Op::Stats => Op::Stats,
                     })
                     .collect(),
             );
@@ -1006,7 +1413,7 @@ fn shrink_values(ops: &[Op]) -> Vec<Vec<Op>> {
     }
     for i in 0..ops.len() {
         match &ops[i] {
-            Op::Ctl(_, _) => {}
+            Op::Ctl(_, _) | Op::Stats => {}
             Op::Ev(s, e) => {
                 // one candidate per thing that can get smaller: drop the decoy, zero the payload, lower the timestamp
                 let mut cands: Vec<Ev> = Vec::new();
